@@ -3,9 +3,20 @@ import Verif.C03.Generated
 /-! C03 property theorems (table part). -/
 namespace Verif.C03
 
+theorem covered_iff (s : Site) (k : Nat) :
+    covered s k = true ↔ k ∈ s.handled ∨ k ∈ s.excused ∨ (s.strip = .loop ∧ k = s.stripKind) := by
+  simp [covered, Bool.or_eq_true, or_assoc]
+
 theorem siteTotal_iff (s : Site) :
-    siteTotal s = true ↔ ∀ k ∈ s.domain, k ∈ s.handled ∨ k ∈ s.excused := by
-  simp [siteTotal, List.all_eq_true]
+    siteTotal s = true ↔ ∀ k ∈ s.domain, k ∈ s.handled ∨ k ∈ s.excused ∨ (s.strip = .loop ∧ k = s.stripKind) := by
+  simp only [siteTotal, List.all_eq_true, covered_iff]
+
+/-- A kind that reaches a total site is named by a case. -/
+theorem reaches_handled (s : Site) (h : siteTotal s = true) (k : Nat) (hr : Reaches s k) : k ∈ s.handled := by
+  rcases (siteTotal_iff s).mp h k hr.1 with h1 | h1 | h1
+  · exact h1
+  · exact absurd h1 hr.2.1
+  · exact absurd h1 hr.2.2
 
 /-- Soundness of the table obligation: if it holds, no sequence of kinds that can reach
 the switch makes it panic. -/
@@ -16,11 +27,7 @@ theorem siteTotal_sound (s : Site) (h : siteTotal s = true) :
   | nil => intro _; rfl
   | cons k ks ih =>
     intro hk
-    have hr := hk k (by simp)
-    have hh : k ∈ s.handled := by
-      rcases (siteTotal_iff s).mp h k hr.1 with h1 | h1
-      · exact h1
-      · exact absurd h1 hr.2
+    have hh : k ∈ s.handled := reaches_handled s h k (hk k (by simp))
     have hc : s.handled.contains k = true := List.contains_iff_mem.mpr hh
     simp only [runSite, dispatch, hc, if_true]
     exact ih (fun k' hk' => hk k' (by simp [hk']))
@@ -29,11 +36,11 @@ theorem siteTotal_sound (s : Site) (h : siteTotal s = true) :
 `missing` names it. -/
 theorem siteTotal_complete (s : Site) (h : siteTotal s = false) :
     ∃ k, Reaches s k ∧ k ∈ missing s ∧ runSite s [k] = .panic := by
-  have hn : ¬ (∀ k ∈ s.domain, k ∈ s.handled ∨ k ∈ s.excused) := by
+  have hn : ¬ (∀ k ∈ s.domain, covered s k = true) := by
     intro hall
-    have := (siteTotal_iff s).mpr hall
+    have : siteTotal s = true := by simpa [siteTotal, List.all_eq_true] using hall
     rw [this] at h; cases h
-  have : ∃ k, k ∈ s.domain ∧ ¬ (k ∈ s.handled ∨ k ∈ s.excused) := by
+  have : ∃ k, k ∈ s.domain ∧ ¬ covered s k = true := by
     apply Classical.byContradiction
     intro hne
     apply hn
@@ -42,24 +49,54 @@ theorem siteTotal_complete (s : Site) (h : siteTotal s = false) :
     intro hk2
     exact hne ⟨k, hk, hk2⟩
   obtain ⟨k, hk, hne⟩ := this
-  have hh : ¬ k ∈ s.handled := fun c => hne (Or.inl c)
-  have he : ¬ k ∈ s.excused := fun c => hne (Or.inr c)
-  refine ⟨k, ⟨hk, he⟩, ?_, ?_⟩
-  · simp [missing, hk, hh, he]
+  have hnc : ¬ (k ∈ s.handled ∨ k ∈ s.excused ∨ (s.strip = .loop ∧ k = s.stripKind)) :=
+    fun c => hne ((covered_iff s k).mpr c)
+  have hh : ¬ k ∈ s.handled := fun c => hnc (Or.inl c)
+  have he : ¬ k ∈ s.excused := fun c => hnc (Or.inr (Or.inl c))
+  have hs : ¬ (s.strip = .loop ∧ k = s.stripKind) := fun c => hnc (Or.inr (Or.inr c))
+  refine ⟨k, ⟨hk, he, hs⟩, ?_, ?_⟩
+  · simp only [missing, List.mem_filter]
+    exact ⟨hk, by simpa using hne⟩
   · simp [runSite, dispatch, hh]
 
 theorem missing_nil_iff (s : Site) : missing s = [] ↔ siteTotal s = true := by
-  rw [siteTotal_iff]
-  simp only [missing, List.filter_eq_nil_iff]
-  constructor
-  · intro h k hk
-    have := h k hk
-    simp at this
-    by_cases hh : k ∈ s.handled
-    · exact Or.inl hh
-    · exact Or.inr (this hh)
-  · intro h k hk
-    rcases h k hk with h1 | h1 <;> simp [h1]
+  simp [missing, siteTotal, List.filter_eq_nil_iff, List.all_eq_true]
+
+/-- A table row that shrinks breaks the obligation: if some kind that reaches the switch is
+not (or no longer) named by a case, the site is not total. -/
+theorem shrink_breaks_total (s : Site) (k : Nat) (hr : Reaches s k) (hk : k ∉ s.handled) :
+    siteTotal s = false := by
+  cases h : siteTotal s with
+  | false => rfl
+  | true => exact absurd (reaches_handled s h k hr) hk
+
+/-! ### label stripping in front of a site -/
+
+/-- With a stripping *loop* the switch never sees the wrapper kind, however deeply the
+statement is labelled. -/
+theorem strip_loop_never_label (s : Site) (hs : s.strip = .loop) (n : Node) (hk : n.kind ≠ s.stripKind) :
+    seen s n ≠ s.stripKind := by
+  simp [seen, hs, hk]
+
+/-- With a single stripping `if`, a statement carrying two or more labels reaches the switch
+as a wrapper, and the site panics unless a case names the wrapper kind. (This is the
+defect "graph.stmt unwraps only one level of label".) -/
+theorem strip_once_leaks_label (s : Site) (hs : s.strip = .once) (n : Node) (h2 : 2 ≤ n.labels) :
+    seen s n = s.stripKind ∧ (s.stripKind ∉ s.handled → runWrapped s [n] = .panic) := by
+  have hseen : seen s n = s.stripKind := by
+    have : ¬ n.labels ≤ 1 := by omega
+    simp [seen, hs, this]
+  refine ⟨hseen, ?_⟩
+  intro hnot
+  simp [runWrapped, runSite, dispatch, hseen, hnot]
+
+/-- Total sites do not panic on wrapped nodes whose visible kind can reach the switch. -/
+theorem runWrapped_ok (s : Site) (h : siteTotal s = true) (ns : List Node)
+    (hr : ∀ n ∈ ns, Reaches s (seen s n)) : runWrapped s ns = .ok := by
+  apply siteTotal_sound s h
+  intro k hk
+  obtain ⟨n, hn, rfl⟩ := List.mem_map.mp hk
+  exact hr n hn
 
 /-- **The regenerated obligation**: every dispatch site listed from the current source is
 total on its domain.  `Gen.sites` is rewritten from /repo on every run, so this `decide`
@@ -70,10 +107,30 @@ theorem all_sites_total : Gen.sites.all siteTotal = true := by decide
 theorem no_site_panics : ∀ s ∈ Gen.sites, ∀ ks : List Nat, (∀ k ∈ ks, Reaches s k) → runSite s ks = .ok :=
   fun s hs => siteTotal_sound s (List.all_eq_true.mp all_sites_total s hs)
 
-/-! non-vacuity: a site with a gap panics, a total one does not -/
-example : runSite ⟨"x", [1, 2, 3], [1, 2], []⟩ [1, 3] = .panic := by decide
-example : siteTotal ⟨"x", [1, 2, 3], [1, 2], []⟩ = false := by decide
-example : siteTotal ⟨"x", [1, 2, 3], [1, 2], [3]⟩ = true := by decide
-example : Gen.sites.length > 10 := by decide
+/-- And for the sites with a stripping loop: statements under any number of labels whose
+inner kind reaches the switch never make it panic — no case for the wrapper is needed. -/
+theorem no_site_panics_wrapped : ∀ s ∈ Gen.sites, s.strip = .loop → ∀ ns : List Node,
+    (∀ n ∈ ns, Reaches s n.kind) → runWrapped s ns = .ok := by
+  intro s hs hl ns hr
+  apply runWrapped_ok s (List.all_eq_true.mp all_sites_total s hs)
+  intro n hn
+  have : seen s n = n.kind := by simp [seen, hl]
+  rw [this]
+  exact hr n hn
+
+/-! non-vacuity: a site with a gap panics, a total one does not; stripping -/
+example : runSite ⟨"x", [1, 2, 3], [1, 2], [], .none, 0⟩ [1, 3] = .panic := by decide
+example : siteTotal ⟨"x", [1, 2, 3], [1, 2], [], .none, 0⟩ = false := by decide
+example : siteTotal ⟨"x", [1, 2, 3], [1, 2], [3], .none, 0⟩ = true := by decide
+example : siteTotal ⟨"x", [1, 2, 3], [1, 2], [], .loop, 3⟩ = true := by decide
+example : siteTotal ⟨"x", [1, 2, 3], [1, 2], [], .once, 3⟩ = false := by decide
+example : Reaches ⟨"x", [1, 2, 3], [1, 2], [], .none, 0⟩ 3 := by unfold Reaches; decide
+example : Reaches ⟨"x", [1, 2, 3], [1, 2], [], .once, 3⟩ 3 := by unfold Reaches; decide
+-- two stacked labels: fine with the loop, a panic with the single `if`
+example : runWrapped ⟨"x", [1, 2, 3], [1, 2], [], .loop, 3⟩ [⟨2, 1⟩, ⟨0, 2⟩] = .ok := by decide
+example : runWrapped ⟨"x", [1, 2, 3], [1, 2], [], .once, 3⟩ [⟨1, 1⟩] = .ok := by decide
+example : runWrapped ⟨"x", [1, 2, 3], [1, 2], [], .once, 3⟩ [⟨2, 1⟩] = .panic := by decide
+example : Gen.sites.length > 30 := by decide
+example : ∃ s ∈ Gen.sites, s.strip = .loop := by decide
 
 end Verif.C03
